@@ -628,7 +628,8 @@ Proof.
   destruct (alookup (r_mid r) (smap s)) as [o|] eqn:Es.
   - (* a search holds this id *)
     destruct (r_kind r) eqn:Ek.
-    5: { apply acct_end_driver; [|discriminate]. apply acctx_acct. apply (acctx_irrelevant _ _ s0); [exact A0|reflexivity..]. }
+    5: { assert (A5 : acct (s0 <| processed ::= fun l => l ++ [(r, None)] |>)) by (apply acctx_acct; apply (acctx_irrelevant _ _ s0); [exact A0|reflexivity..]).
+         destruct (fix5 (fx s)); [exact A5|]. apply acct_end_driver; [exact A5|discriminate]. }
     all: set (alive := match getop s o with Some c => o_rx c | None => false end).
     all: set (s1 := if alive then updop o (fun c0 => c0 <| o_items ::= fun l => l ++ [r] |>) s0 else s0).
     all: assert (A1 : acctx None None s1) by (unfold s1; destruct alive; [apply acctx_caller_side; [exact A0|apply caller_side_push]|exact A0]).
